@@ -46,7 +46,7 @@ package grpcgcp
 
 //@ typeinv gcpBalancer := this.cc != nil && this.csEvltr != nil && this.log != nil
 //@ typeinv gcpPicker := this.gb != nil && this.log != nil
-//@ typeinv gcpPicker := forall x in this.scRefs :: x != nil
+//@ typeinv gcpPicker := forall x in this.scRefs :: x != nil && isa(x)
 //@ typeinv gcpPicker := this.gb.cfg != nil
 //@ typeinv gcpPicker := len(this.scRefs) > 0 ==> len(this.gb.scRefList) > 0
 //@ typeinv gcpLogger := this.logger != nil
@@ -81,6 +81,8 @@ package grpcgcp
 //@ pred affUnchanged(gb *gcpBalancer) := forall k string :: {k in gb.affinityMap} (k in gb.affinityMap) == old(k in gb.affinityMap) && gb.affinityMap[k] == old(gb.affinityMap[k])
 //@ pred fbUnchanged(gb *gcpBalancer) := forall k string :: {k in gb.fallbackMap} (k in gb.fallbackMap) == old(k in gb.fallbackMap) && gb.fallbackMap[k] == old(gb.fallbackMap[k])
 //@ pred homeFrame(gb *gcpBalancer) := forall K string :: {K in gb.affinityMap} old(home(gb, K)) != nil ==> home(gb, K) == old(home(gb, K))
+//@ inv gcpBalancer.mu I13 [C20] := (forall sc in this.scRefs :: $addrs[sc] == this.addrs && $connectRequested[sc]) && (forall sc in this.refreshingScRefs :: $addrs[sc] == this.addrs && $connectRequested[sc])
+//@ mono gcpBalancer.mu [C09.list-prefix] := forall i, x in old(this.scRefList) :: i < len(this.scRefList) && this.scRefList[i] == x
 //@ spec aggOf(r int, c int) := ite(r > 0, connectivity.Ready, ite(c > 0, connectivity.Connecting, connectivity.TransientFailure))
 //@ inv gcpBalancer.mu I7 [C04] := $pubCount > 0 ==> this.state == aggOf(this.csEvltr.numReady, this.csEvltr.numConnecting)
 //@ inv gcpBalancer.mu I12 [C04] := $pubCount > 0 ==> $lastState == this.state && $lastPicker == this.picker
@@ -122,10 +124,23 @@ package grpcgcp
 //@   loop 2 invariant forall k string :: {k in gb.fallbackMap} (k in gb.fallbackMap) == old(k in gb.fallbackMap) && gb.fallbackMap[k] == ite($visited(k) && old(gb.fallbackMap[k]) == oldSc, sc, old(gb.fallbackMap[k]))
 //@   loop 3 invariant forall k, v in gb.fallbackMap :: ($visited(k) ==> v != sc) && (v != sc ==> v in gb.scRefs && gb.scStates[v] == connectivity.Ready)
 //@   loop 4 invariant forall k, v in gb.fallbackMap :: v in gb.scRefs && gb.scStates[v] == connectivity.Ready
+//@   ensures [C07.swap] old(sc in gb.refreshingScRefs) && scs.ConnectivityState == connectivity.Ready ==> old(gb.refreshingScRefs[sc]).subConn == sc && gb.scRefs[sc] == old(gb.refreshingScRefs[sc]) && !(sc in gb.refreshingScRefs) && !old(gb.refreshingScRefs[sc]).refreshing && gb.scStates[sc] == connectivity.Ready && !(old(gb.refreshingScRefs[sc].subConn) in gb.scRefs)
+//@   ensures [C07.swap-removes-old-once] old(sc in gb.refreshingScRefs) && scs.ConnectivityState == connectivity.Ready ==> $removed == upd(old($removed), old(gb.refreshingScRefs[sc].subConn), old($removed[gb.refreshingScRefs[sc].subConn]) + 1)
+//@   ensures [C03.remove-only-old] !(old(sc in gb.refreshingScRefs) && scs.ConnectivityState == connectivity.Ready) ==> $removed == old($removed)
+//@   ensures [C07.swap-wait] old(sc in gb.refreshingScRefs) && scs.ConnectivityState != connectivity.Ready ==> sc in gb.refreshingScRefs && gb.refreshingScRefs[sc] == old(gb.refreshingScRefs[sc]) && gb.refreshingScRefs[sc].subConn == old(gb.refreshingScRefs[sc].subConn) && (forall x balancer.SubConn :: {x in gb.scRefs} (x in gb.scRefs) == old(x in gb.scRefs) && gb.scStates[x] == old(gb.scStates[x]))
+//@   ensures [C07.swap-keeps-position] len(gb.scRefList) == old(len(gb.scRefList)) && (forall i, x in gb.scRefList :: x == old(gb.scRefList[i]))
+//@   ensures [C02.refresh-keeps-streams] forall r *subConnRef :: {r.streamsCnt} r.streamsCnt == old(r.streamsCnt)
 //@   ensures [C04.replacement-waits] old(sc in gb.refreshingScRefs) && scs.ConnectivityState != connectivity.Ready ==> $pubCount == old($pubCount) && gb.state == old(gb.state) && gb.picker == old(gb.picker)
 //@ func (gb *gcpBalancer) UpdateClientConnState
+//@   ensures [C20.addrs-stored] $ret0 == nil ==> gb.addrs == ccs.ResolverState.Addresses
+//@   ensures [C17.fixed] old(gb.cfg != nil) ==> gb.cfg == old(gb.cfg) && gb.methodCfg == old(gb.methodCfg) && gb.unresponsiveDetection == old(gb.unresponsiveDetection)
+//@   ensures [C03.remove-only-old] $removed == old($removed)
+//@   loop 1 invariant forall sc in gb.scRefs :: $visited(sc) ==> $addrs[sc] == addrs && $connectRequested[sc]
+//@   loop 1 invariant forall sc in gb.refreshingScRefs :: $addrs[sc] == old($addrs[sc]) && $connectRequested[sc] == old($connectRequested[sc])
 //@   ensures [C01.frame] homeFrame(gb) && affUnchanged(gb) && fbUnchanged(gb)
 //@ func (gb *gcpBalancer) ResolverError
+//@   modifies nothing
+//@   ensures [C20.resolver-error] true
 //@ func (gb *gcpBalancer) Close
 //@ func (gb *gcpBalancer) getConnectionPoolSize
 //@ func (gb *gcpBalancer) newSubConn
@@ -151,21 +166,59 @@ package grpcgcp
 //@   loop 1 invariant forall fsc, fst in gb.scStates :: $visited(fsc) && fst == connectivity.Ready ==> fbRef != nil
 //@ func (gb *gcpBalancer) getSubConnRoundRobin
 //@   requires ctx != nil && gb.cfg != nil
+//@   ensures [C09.cursor] gb.rrRefId == wrap32u(old(gb.rrRefId) + 1)
+//@   onassign scRef asserts [C09.assign] scRef == gb.scRefList[gb.rrRefId % len(gb.scRefList)] && gb.rrRefId == wrap32u(old(gb.rrRefId) + 1)
+//@   interruptible_by ctx
 //@   requires len(gb.scRefList) > 0
 //@   ensures result != nil
 //@   loop 1 blocking
 //@ func (gb *gcpBalancer) addSubConn
 //@   inline
+//@ spec minSizeOf(gb *gcpBalancer) := gb.cfg.GetChannelPool().GetMinSize()
+//@ spec maxSizeOf(gb *gcpBalancer) := gb.cfg.GetChannelPool().GetMaxSize()
 //@ func (gb *gcpBalancer) enforceMinSize
-//@   inline
-//@   loop 1 invariant lockinv(gb.mu) && gb.cfg != nil && len(gb.scRefList) >= old(len(gb.scRefList))
-//@   loop 1 decreases gb.cfg.GetChannelPool().GetMinSize() - len(gb.scRefs)
+//@   locks held gb.mu
+//@   requires gb.cfg != nil && lockinv(gb.mu)
+//@   ensures lockinv(gb.mu)
+//@   ensures [C03.initial] $newFail == old($newFail) ==> len(gb.scRefs) == max(old(len(gb.scRefs)), minSizeOf(gb))
+//@   ensures [C03.initial-bound] len(gb.scRefs) <= max(old(len(gb.scRefs)), minSizeOf(gb)) && len(gb.scRefs) >= old(len(gb.scRefs))
+//@   ensures [C09.list-grows] len(gb.scRefList) >= old(len(gb.scRefList))
+//@   ensures [C01.frame] homeFrame(gb) && affUnchanged(gb) && fbUnchanged(gb)
+//@   ensures [C17.fixed] gb.cfg == old(gb.cfg) && gb.methodCfg == old(gb.methodCfg) && gb.unresponsiveDetection == old(gb.unresponsiveDetection)
+//@   ensures [C20.pool-addrs] (forall sc in gb.scRefs :: !old(sc in gb.scRefs) ==> $addrs[sc] == gb.addrs && $connectRequested[sc]) && gb.addrs == old(gb.addrs)
+//@   loop 1 invariant lockinv(gb.mu) && gb.cfg == old(gb.cfg) && gb.methodCfg == old(gb.methodCfg) && gb.unresponsiveDetection == old(gb.unresponsiveDetection) && gb.addrs == old(gb.addrs)
+//@   loop 1 invariant len(gb.scRefList) >= old(len(gb.scRefList)) && len(gb.scRefs) >= old(len(gb.scRefs)) && len(gb.scRefs) <= max(old(len(gb.scRefs)), minSizeOf(gb))
+//@   loop 1 invariant $newFail == old($newFail) && homeFrame(gb) && affUnchanged(gb) && fbUnchanged(gb)
+//@   loop 1 invariant forall sc in gb.scRefs :: !old(sc in gb.scRefs) ==> $addrs[sc] == gb.addrs && $connectRequested[sc]
+//@   loop 1 decreases minSizeOf(gb) - len(gb.scRefs)
 //@ func (gb *gcpBalancer) initializeConfig
-//@   inline
+//@   locks held gb.mu
+//@   requires gb.cfg == nil && lockinv(gb.mu)
+//@   ensures gb.cfg != nil && lockinv(gb.mu)
+//@   ensures [C17.defaults] minSizeOf(gb) >= 1 && maxSizeOf(gb) >= 1 && gb.cfg.GetChannelPool().GetMaxConcurrentStreamsLowWatermark() >= 1
+//@   ensures [C17.defaults-min] minSizeOf(gb) == ite(cfg != nil && cfg.ApiConfig != nil && cfg.ApiConfig.ChannelPool != nil && cfg.ApiConfig.ChannelPool.MinSize != 0, cfg.ApiConfig.ChannelPool.MinSize, 1)
+//@   ensures [C17.defaults-max] maxSizeOf(gb) == ite(cfg != nil && cfg.ApiConfig != nil && cfg.ApiConfig.ChannelPool != nil && cfg.ApiConfig.ChannelPool.MaxSize != 0, cfg.ApiConfig.ChannelPool.MaxSize, 4)
+//@   ensures [C17.defaults-watermark] gb.cfg.GetChannelPool().GetMaxConcurrentStreamsLowWatermark() == ite(cfg != nil && cfg.ApiConfig != nil && cfg.ApiConfig.ChannelPool != nil && cfg.ApiConfig.ChannelPool.MaxConcurrentStreamsLowWatermark != 0, cfg.ApiConfig.ChannelPool.MaxConcurrentStreamsLowWatermark, 100)
+//@   ensures [C17.fidelity] cfg != nil && cfg.ApiConfig != nil && cfg.ApiConfig.ChannelPool != nil ==> gb.cfg.ApiConfig.ChannelPool.FallbackToReady == cfg.ApiConfig.ChannelPool.FallbackToReady && gb.cfg.ApiConfig.ChannelPool.UnresponsiveCalls == cfg.ApiConfig.ChannelPool.UnresponsiveCalls && gb.cfg.ApiConfig.ChannelPool.UnresponsiveDetectionMs == cfg.ApiConfig.ChannelPool.UnresponsiveDetectionMs && gb.cfg.ApiConfig.ChannelPool.BindPickStrategy == cfg.ApiConfig.ChannelPool.BindPickStrategy && gb.cfg.ApiConfig.ChannelPool.IdleTimeout == cfg.ApiConfig.ChannelPool.IdleTimeout
+//@   ensures [C17.no-alias] fresh(gb.cfg) && fresh(gb.cfg.ApiConfig) && fresh(gb.cfg.ApiConfig.ChannelPool)
+//@   ensures [C17.detection-flag] gb.unresponsiveDetection == (gb.cfg.ApiConfig.ChannelPool.UnresponsiveCalls > 0 && gb.cfg.ApiConfig.ChannelPool.UnresponsiveDetectionMs > 0)
+//@   ensures [C03.initial] $newFail == old($newFail) ==> len(gb.scRefs) == max(old(len(gb.scRefs)), minSizeOf(gb))
+//@   ensures [C09.list-grows] len(gb.scRefList) >= old(len(gb.scRefList))
+//@   ensures [C01.frame] homeFrame(gb) && affUnchanged(gb) && fbUnchanged(gb)
+//@   ensures [C20.pool-addrs] (forall sc in gb.scRefs :: !old(sc in gb.scRefs) ==> $addrs[sc] == gb.addrs && $connectRequested[sc]) && gb.addrs == old(gb.addrs)
+//@   fresh_writes pb.ApiConfig pb.ChannelPoolConfig pb.MethodConfig pb.AffinityConfig GCPBalancerConfig
 //@ func (gb *gcpBalancer) regeneratePicker
-//@   inline
-//@   loop 1 invariant forall x in readyRefs :: x != nil
+//@   locks held gb.mu
+//@   requires gb.cfg != nil && lockinv(gb.mu, "I0", "I1", "I2", "I9c")
+//@   ensures [C04.picker-tf] gb.state == connectivity.TransientFailure ==> gb.picker is *errPicker && gb.picker.(*errPicker).err == balancer.ErrTransientFailure
+//@   ensures [C04.picker-ok] gb.state != connectivity.TransientFailure ==> gb.picker is *gcpPicker && gb.picker.(*gcpPicker).gb == gb
+//@   ensures [C02.snapshot-ready] gb.state != connectivity.TransientFailure ==> forall x in gb.picker.(*gcpPicker).scRefs :: x != nil && x.subConn in gb.scStates && gb.scStates[x.subConn] == connectivity.Ready && gb.scRefs[x.subConn] == x
+//@   ensures [C02.snapshot-all] gb.state != connectivity.TransientFailure ==> forall sc, st in gb.scStates :: st == connectivity.Ready ==> exists j, x in gb.picker.(*gcpPicker).scRefs :: x == gb.scRefs[sc]
+//@   ensures gb.picker != nil
+//@   loop 1 invariant forall x in readyRefs :: x != nil && isa(x) && x.subConn in gb.scStates && gb.scStates[x.subConn] == connectivity.Ready && gb.scRefs[x.subConn] == x
 //@   loop 1 invariant len(readyRefs) > 0 ==> len(gb.scRefList) > 0
+//@   loop 1 invariant sliceoff(readyRefs) == 0
+//@   loop 1 invariant forall sc, st in gb.scStates :: $visited(sc) && st == connectivity.Ready ==> exists j, x in readyRefs :: x == gb.scRefs[sc]
 //@
 //@ func NewGCPLogger
 //@   requires logger != nil
@@ -173,10 +226,12 @@ package grpcgcp
 //@   constructor
 //@ func newGCPPicker
 //@   requires gb != nil
-//@   requires forall x in readySCRefs :: x != nil
+//@   requires forall x in readySCRefs :: x != nil && isa(x)
 //@   requires gb.cfg != nil
 //@   requires len(readySCRefs) > 0 ==> len(gb.scRefList) > 0
 //@   ensures result is *gcpPicker && result.(*gcpPicker).gb == gb && result.(*gcpPicker).scRefs == readySCRefs
+//@   ensures [C02.snapshot-copy] forall j, x in result.(*gcpPicker).scRefs :: x == readySCRefs[j]
+//@   ensures [C02.snapshot-copy] forall j, y in readySCRefs :: y == result.(*gcpPicker).scRefs[j]
 //@   constructor gcpPicker
 //@ func newErrPicker
 //@   ensures result is *errPicker && result.(*errPicker).err == err
@@ -195,20 +250,54 @@ package grpcgcp
 //@ func (p *gcpPicker) Pick
 //@   requires info.Ctx != nil
 //@   ensures [C04.gcppicker-not-tf] $ret1 != balancer.ErrTransientFailure
+//@   ensures [C02.place-delta] $ret1 == nil ==> scRef != nil && (old(isa(scRef)) ==> scRef.streamsCnt == wrap32s(old(scRef.streamsCnt) + 1)) && othersKeepStreams(scRef) && $ret0.Done != nil
+//@   ensures [C02.place-delta-none] $ret1 != nil ==> othersKeepStreams(nil)
 //@ func (p *gcpPicker) Pick$1
 //@   captures scRef != nil && p != nil && ctx != nil && len(p.scRefs) > 0 && (hasGCPCtx ==> gcpCtx != nil)
+//@   ensures [C02.done-delta] scRef.streamsCnt == wrap32s(old(scRef.streamsCnt) - 1) && othersKeepStreams(scRef)
+//@   callsite bindSubConn#1 asserts [C01.done-fail] info.Err == nil && cmd == pb.AffinityConfig_BIND && hasGCPCtx
+//@   callsite unbindSubConn#1 asserts [C01.done-fail] info.Err == nil && cmd == pb.AffinityConfig_UNBIND
+//@ spec watermark(p *gcpPicker) := p.gb.cfg.GetChannelPool().GetMaxConcurrentStreamsLowWatermark()
 //@ func (p *gcpPicker) getLeastBusySubConnRef
 //@   requires len(p.scRefs) > 0
 //@   ensures [C04.gcppicker-not-tf] $ret1 == nil || $ret1 == balancer.ErrNoSubConnAvailable
+//@   ensures [C02.least] $ret0 != nil ==> (exists j, x in p.scRefs :: x == $ret0) && (forall x in p.scRefs :: $ret0.streamsCnt <= x.streamsCnt)
+//@   ensures [C02.least-or-wait] ($ret0 == nil) == ($ret1 != nil)
+//@   ensures [C03.below-watermark-placed] (exists x in p.scRefs :: x.streamsCnt < watermark(p)) ==> $ret0 != nil
+//@   callsite newSubConn#1 asserts [C03.grow-iff] forall x in p.scRefs :: x.streamsCnt >= watermark(p)
+//@   ensures [C03.grow-waits] true
+//@   loop 1 invariant minScRef != nil && minStreamsCnt == minScRef.streamsCnt && (exists j, x in p.scRefs :: x == minScRef)
+//@   loop 1 invariant forall j, x in p.scRefs :: j <= $i ==> minStreamsCnt <= x.streamsCnt
+//@ pred othersKeepStreams(r0 *subConnRef) := forall r *subConnRef :: {r.streamsCnt} old(isa(r)) && r != r0 ==> r.streamsCnt == old(r.streamsCnt)
+//@ callers [C01.only-completion-binds] bindSubConn: Pick$1
+//@ callers [C01.only-completion-unbinds] unbindSubConn: Pick$1
+//@ callers [C07.only-detector-refreshes] refresh: detectUnresponsive
+//@ callers [C03.growth-sites] newSubConn: getLeastBusySubConnRef getSubConnRoundRobin
+//@ lemma [C09.consecutive] forall c int, n int :: 0 <= c && c < 4294967295 && n >= 1 ==> wrap32u(c + 1) % n == (c % n + 1) % n
+//@ lemma [C09.consecutive@wrap] forall n int :: n >= 1 ==> wrap32u(4294967295 + 1) % n == (4294967295 % n + 1) % n
+//@ callers [C03.remove-site] RemoveSubConn: UpdateSubConnState
+//@ callers [C03.add-sites] addSubConn: newSubConn enforceMinSize UpdateClientConnState
 //@ func (p *gcpPicker) getAndIncrementSubConnRef
 //@   requires len(p.scRefs) > 0 && ctx != nil
+//@   ensures [C02.place-delta] $ret0 != nil && old(isa($ret0)) ==> $ret0.streamsCnt == wrap32s(old($ret0.streamsCnt) + 1)
+//@   ensures [C02.place-delta-others] $ret0 != nil ==> othersKeepStreams($ret0)
+//@   ensures [C02.place-delta-none] $ret0 == nil ==> othersKeepStreams(nil)
+//@   ensures [C02.place-delta-none] $ret1 != nil ==> $ret0 == nil
+//@   ensures [C09.only-bind] !(cmd == pb.AffinityConfig_BIND && p.gb.cfg.GetChannelPool().GetBindPickStrategy() == pb.ChannelPoolConfig_ROUND_ROBIN) ==> p.gb.rrRefId == old(p.gb.rrRefId)
 //@   ensures [C04.gcppicker-not-tf] $ret1 == nil || $ret1 == balancer.ErrNoSubConnAvailable
 //@ func (p *gcpPicker) getSubConnRef
 //@   inline
+//@ spec detMs(p *gcpPicker) := p.gb.cfg.GetChannelPool().GetUnresponsiveDetectionMs()
+//@ spec detCalls(p *gcpPicker) := p.gb.cfg.GetChannelPool().GetUnresponsiveCalls()
+//@ spec satWindow(ms int, k int) := ite(k >= 63 || ms * pow2(k) * 1000000 > 9223372036854775807, 9223372036854775807, ms * pow2(k) * 1000000)
 //@ func (p *gcpPicker) detectUnresponsive
 //@   requires scRef != nil && ctx != nil && len(p.scRefs) > 0
+//@   ensures [C07.disabled] !p.gb.unresponsiveDetection ==> scRef.deCalls == old(scRef.deCalls) && scRef.refreshCnt == old(scRef.refreshCnt) && scRef.lastResp == old(scRef.lastResp) && $newCalls == old($newCalls)
+//@   ensures [C07.response] p.gb.unresponsiveDetection && rpcErr == nil ==> scRef.deCalls == 0 && scRef.refreshCnt == 0 && ns(scRef.lastResp) == $clock
+//@   callsite refresh#1 asserts [C07.rule] p.gb.unresponsiveDetection && rpcErr != nil && scRef.deCalls >= detCalls(p) && !(ns(callStarted) < ns(lastResp)) && ns(lastResp) + satWindow(detMs(p), scRef.refreshCnt) < $clock
 //@ func (p *gcpPicker) unresponsiveWindow
 //@   requires scRef != nil
+//@   ensures [C07.window] $ret0 == satWindow(detMs(p), scRef.refreshCnt)
 
 // ---------------------------------------------------------------- interceptors (C12)
 
